@@ -105,25 +105,4 @@ theorem enc0_aad_injective (p p' e e' : Option Bytes)
   exact ⟨Cose.Props.C04.asInMessage_inj this.1, by simpa [externalAad] using this.2⟩
 
 
-/-! ## History freedom (regenerated facts, see C02) -/
-
-/-- `UnmarshalCBOR` of the encrypted kinds overwrites the headers, the retained wire struct and the recipients -/
-theorem unmarshal_overwrites_everything_enc :
-    ["cose.Encrypt0Message", "cose.EncryptMessage"].all (fun t =>
-      ["recv.Protected", "recv.Unprotected", "recv.mm"].all (fun f =>
-        (C02.fieldUses (t ++ ".UnmarshalCBOR") f).contains "assigned")) = true
-    ∧ (C02.fieldUses "cose.EncryptMessage.UnmarshalCBOR" "recv.recipients").contains "assigned" = true := by decide +kernel
-
-/-- `Decrypt` recomputes the Enc_structure on every call: the cached `toEnc` is assigned and handed to the AEAD as
-    additional data, never read back (a "build it only once" shortcut adds a `read` here) -/
-theorem decrypt_recomputes_aad :
-    C02.fieldUses "cose.Encrypt0Message.Decrypt" "recv.toEnc" = ["arg:key.Encryptor.Decrypt#2", "assigned"]
-    ∧ C02.fieldUses "cose.EncryptMessage.Decrypt" "recv.toEnc" = ["arg:key.Encryptor.Decrypt#2", "assigned"] := by decide +kernel
-
-/-- apart from the payload (the plaintext, after the AEAD accepted) and that cache, `Decrypt` writes nothing -/
-theorem decrypt_writes_only_payload_and_cache :
-    ["cose.Encrypt0Message.Decrypt", "cose.EncryptMessage.Decrypt"].all (fun m =>
-      ["recv.Protected", "recv.Unprotected", "recv.mm", "recv.recipients"].all (fun f =>
-        !(C02.fieldUses m f).contains "assigned" && !(C02.fieldUses m f).contains "addr")) = true := by decide +kernel
-
 end Cose.Props.C03
